@@ -51,6 +51,8 @@ const (
 	fDeleteAll = "delete-attribute-and-its-type" // gone from Attrs and from the object's own AttrTypes
 	fWrongType = "wrong-typed-value"
 	fNilIface  = "nil-interface-value"
+	fPtrValue  = "pointer-to-own-value-type" // *types.String where types.String is expected: another Go type
+	fNilPtr    = "typed-nil-pointer"         // (*types.String)(nil)
 	fNilAttrs  = "nil-attrs-container"
 	fNilElems  = "nil-elems-container"
 	fTypeGone  = "attr-type-removed"
@@ -114,7 +116,9 @@ func objectFaults(n *spec.Node, o types.Object, path []step, injected map[string
 			fault{kind: fDelete, path: p, expect: entryDiag(e, false), entry: e},
 			fault{kind: fDeleteAll, path: p, expect: entryDiag(e, false), entry: e},
 			fault{kind: fWrongType, path: p, expect: entryDiag(e, true), entry: e},
-			fault{kind: fNilIface, path: p, expect: entryDiag(e, true), entry: e})
+			fault{kind: fNilIface, path: p, expect: entryDiag(e, true), entry: e},
+			fault{kind: fPtrValue, path: p, expect: entryDiag(e, true), entry: e},
+			fault{kind: fNilPtr, path: p, expect: entryDiag(e, true), entry: e})
 		switch x := v.(type) {
 		case types.Object:
 			if e.Child != nil {
@@ -128,7 +132,9 @@ func objectFaults(n *spec.Node, o types.Object, path []step, injected map[string
 			for i, el := range x.Elems {
 				ep := append(append([]step{}, p...), step{list: true, idx: i})
 				*out = append(*out, fault{kind: fWrongType, path: ep, expect: entryDiag(e, true), entry: e},
-					fault{kind: fNilIface, path: ep, expect: entryDiag(e, true), entry: e})
+					fault{kind: fNilIface, path: ep, expect: entryDiag(e, true), entry: e},
+					fault{kind: fPtrValue, path: ep, expect: entryDiag(e, true), entry: e},
+					fault{kind: fNilPtr, path: ep, expect: entryDiag(e, true), entry: e})
 				if eo, ok := el.(types.Object); ok && e.Child != nil {
 					objectFaults(e.Child, eo, ep, nil, out)
 				}
@@ -146,7 +152,9 @@ func objectFaults(n *spec.Node, o types.Object, path []step, injected map[string
 			for _, k := range keys {
 				ep := append(append([]step{}, p...), step{mp: true, key: k})
 				*out = append(*out, fault{kind: fWrongType, path: ep, expect: entryDiag(e, true), entry: e},
-					fault{kind: fNilIface, path: ep, expect: entryDiag(e, true), entry: e})
+					fault{kind: fNilIface, path: ep, expect: entryDiag(e, true), entry: e},
+					fault{kind: fPtrValue, path: ep, expect: entryDiag(e, true), entry: e},
+					fault{kind: fNilPtr, path: ep, expect: entryDiag(e, true), entry: e})
 				if eo, ok := x.Elems[k].(types.Object); ok && e.Child != nil {
 					objectFaults(e.Child, eo, ep, nil, out)
 				}
@@ -183,6 +191,20 @@ func applyFault(v attr.Value, path []step, kind string) attr.Value {
 			return wrongTyped(v)
 		case fNilIface:
 			return nil
+		case fPtrValue, fNilPtr:
+			if v == nil {
+				return nil
+			}
+			pt := reflect.PtrTo(reflect.TypeOf(v))
+			pv := reflect.Zero(pt)
+			if kind == fPtrValue {
+				pv = reflect.New(reflect.TypeOf(v))
+				pv.Elem().Set(reflect.ValueOf(v))
+			}
+			if av, ok := pv.Interface().(attr.Value); ok {
+				return av
+			}
+			return wrongTyped(v)
 		}
 		panic("harness: applyFault kind " + kind)
 	}
